@@ -482,7 +482,6 @@ def reactor_plan(ctx):
             L = stream_len(version, kinds)
             n_full += add('asyncio', version, kinds, False, 'full', bsf(L, hs), None, variants)
         # two empty frames: each exactly one header long
-        L = stream_len(version, ('r0', 'r0'))
         if ctx.quick:
             if version == 2:
                 n_full += add('asyncio', version, ('r0', 'r0'), False, 'full', (4,), None, (EACH,))
